@@ -26,8 +26,8 @@ theorem encode_never_faults {c : Cfg} (hc : c.Valid) {x : Coder} (hx : Inv c x) 
 
 /-- `decode_symbol` on an invariant coder with a well-formed model: never a fault. -/
 theorem decode_never_faults {c : Cfg} (hc : c.Valid) {m : Model Sym} (hm : m.WellFormed c.P)
-    {x : Coder} (hx : Inv c x) (hcap : x.cap = none) : ∃ r, decode c m x = .ok r := by
-  obtain ⟨s, y, h, _⟩ := C10.decode_total hc hm hx hcap
+    {x : Coder} (hx : Inv c x) : ∃ r, decode c m x = .ok r := by
+  obtain ⟨s, y, h, _⟩ := C10.decode_total hc hm hx
   exact ⟨_, h⟩
 
 end CV.Ans.C20
